@@ -111,16 +111,18 @@ func NewListener(opts ...Option) *Listener {
 // the underlying storage for use by future decode to reduce memory allocs.
 func (l *Listener) Reset(opts ...Option) {
 	l.Close()
-	prevChannelBuffer := l.options.channelBuffer
 	l.options = defaultOptions()
 	for i := range opts {
 		opts[i](&l.options)
 	}
 
-	if prevChannelBuffer != l.options.channelBuffer {
+	// The pool holds at least one slice even when the channels are unbuffered (size 0):
+	// OnMesg takes a slice from the pool for every message, an empty pool would block it forever.
+	poolSize := max(l.options.channelBuffer, 1)
+	if uint(cap(l.poolc)) != poolSize {
 		prevPoolc := l.poolc
-		l.poolc = make(chan []proto.Field, l.options.channelBuffer)
-		for i := uint(0); i < l.options.channelBuffer; i++ {
+		l.poolc = make(chan []proto.Field, poolSize)
+		for i := uint(0); i < poolSize; i++ {
 			select {
 			case v := <-prevPoolc:
 				l.poolc <- v // fill with previously allocated slice.
@@ -185,7 +187,7 @@ func (l *Listener) Close() {
 
 	// PERF: In case the Listener might be reused later, this ensure fields' pool does not reference any pointer
 	// such as proto.FieldBase created for unknown fields or field.Value that reference any pointer to a slice.
-	for i := uint(0); i < l.options.channelBuffer; i++ {
+	for i := 0; i < cap(l.poolc); i++ {
 		fields := <-l.poolc
 		clear(fields[:cap(fields):cap(fields)])
 		l.poolc <- fields
